@@ -36,7 +36,9 @@ BAD = [2**31, 2**32 - 1, 2**32, 2**32 + 1, 2**63, 2**64 + 1, 10**40, 0, 1, 2, 3,
 def bad_number(rng):
     """a number outside its field: the fixed boundary values, or one that is k*2^64 (or 2^63) plus/minus a small amount, with either sign —
     the values an accumulator that wraps instead of saturating turns into small legal numbers"""
-    if rng.random() < 0.6: return rng.choice(BAD)
+    r = rng.random()
+    if r < 0.25: return rng.choice([2**31, 2**31 + 1, 3000000000, 2**32 - 1, rng.randint(2**31, 2**32 - 1)])   # fits unsigned, not int: the window a wrong cast hides in (C07-a)
+    if r < 0.65: return rng.choice(BAD)
     v = rng.choice([2**63, 2**64, 2**64, 2 * 2**64, 3 * 2**64, 4 * 2**64]) + rng.choice([-1, 1]) * rng.choice([0, 1, 2, 5, 7, 2**31 - 1, 2**31, rng.randint(0, 2**32)])
     return v if rng.random() < 0.6 else -v
 
@@ -113,7 +115,12 @@ def corpus(ctx):
             {"ext": 0, "text": b"5 1 1 1 0 2 3000000000\n0\n0\nB+\n0\nB-\n0\n1\n".hex()},     # D4: weight
             {"ext": 0, "text": b"1 1 0 0\n0\n3000000000 a\n0\nB+\n0\nB-\n0\n1\n".hex()},      # D4: symbol atom
             {"ext": 0, "text": b"0\n0\nB+\n0\nB-\n0\nE\n4000000000\n0\n1\n".hex()},            # D4: external atom
-            {"ext": 0, "text": b"90 0\n0\n0\nB+\n0\nB-\n0\n1\n".hex()}]
+            {"ext": 0, "text": b"90 0\n0\n0\nB+\n0\nB-\n0\n1\n".hex()}] + [
+            # every numeric field of every rule type once with 3000000000 (fits unsigned, not int) and once with 2^31 (C07-a: cardinality bound)
+            {"ext": 1, "text": (" ".join(v if j == i else x for j, x in enumerate(rule)) + "\n0\n0\nB+\n0\nB-\n0\n1\n").encode().hex()}
+            for rule in (["1", "2", "1", "0", "3"], ["2", "1", "2", "0", "1", "2", "3"], ["3", "2", "1", "2", "1", "0", "3"], ["5", "1", "1", "2", "0", "2", "3", "1", "1"],
+                         ["6", "0", "2", "1", "2", "3", "1", "1"], ["8", "2", "1", "2", "1", "0", "3"], ["91", "2", "1"], ["92", "2"])
+            for i in range(1, len(rule)) for v in ("3000000000", "2147483648")]
 
 def generate(ctx):
     n = {"quick": 3000, "thorough": 100000}[ctx.tier]
